@@ -68,6 +68,8 @@ def run(rep, prog, tier):
     r3(rep, prog)
     r4(rep, prog)
     r5(rep, prog)
+    r6(rep, prog)
+    r7(rep, prog)
 
 
 def r5(rep, prog):
@@ -142,6 +144,42 @@ def r5(rep, prog):
     ms = {m for _, m in cur + txt if m is not None}
     rep.check(len(cur) == len(txt) and len(ms) <= 1, R, "cursor and text advance by the end of the same Match", "match local %s" % sorted(ms),
               "self.cursor and self.text are not advanced pairwise by the same Match (%d cursor store(s), %d text store(s), matches %s)" % (len(cur), len(txt), sorted(ms)), site=b.span)
+
+
+def r6(rep, prog):
+    """the highlighted ranges a Snippet exposes are disjoint by construction"""
+    R = "C19-R6"
+    rep.rule(R, "disjoint highlights by construction: tokens may overlap (n-gram analyzers), so the ranges collected in a fragment can overlap; every Snippet built outside the tests receives its `highlighted` vector from collapse_overlapped_ranges (sort, deduplicate, merge) — `Snippet::highlighted()` is public, 'highlighted ranges are sorted, disjoint' must hold for it and not only for to_html()")
+    names = prog.names(r"snippet::Snippet::new$")
+    sites_ = [(b, bi, t) for b, bi, t in prog.who_calls(set(names)) if "::tests::" not in b.id]
+    rep.floor(R, "Snippet::new call sites", len(sites_), 1)
+    for b, bi, t in sites_:
+        l = op_local(t["args"][1]) if len(t.get("args", [])) > 1 else None
+        lv = provenance(b, l) if l is not None else set()
+        okk = any(x[0] == "call" and x[1].endswith("snippet::collapse_overlapped_ranges") for x in lv)
+        rep.check(okk, R, "%s gives Snippet::new collapsed ranges" % short(b.id), "highlighted <- collapse_overlapped_ranges(..)",
+                  "`%s` builds a Snippet whose highlighted ranges come straight from the fragment's token matches (%s): with an analyzer whose tokens overlap (n-grams) `Snippet::highlighted()` returns "
+                  "overlapping, unsorted ranges such as [0..3, 1..4]" % (b.id, sorted(str(x[1]) for x in lv if x[0] == "call")[:3]), site=site(b, bi))
+
+
+def r7(rep, prog):
+    """the snippet generator looks a token up as the analyzer produced it"""
+    R = "C19-R7"
+    rep.rule(R, "no case folding behind the analyzer's back: FragmentCandidate::try_add_token decides whether a token is highlighted by looking its text up among the query terms; both come out of the field's analyzer, so the key is the token text itself. A to_lowercase() on the way makes a case-preserving analyzer (whitespace, raw) highlight `HELLO` for the query `hello` and miss `HELLO` for the query `HELLO`: 'each [highlighted range] covers text whose analysis yields a query term'")
+    fid = "tantivy::snippet::FragmentCandidate::try_add_token"
+    b = get_body(rep, prog, R, fid)
+    if b is None:
+        return
+    gets = [(bi, t) for bi, t in b.calls() if (t.get("f") or "").endswith("BTreeMap::<K, V, A>::get")]
+    if not rep.check(len(gets) == 1, R, "try_add_token looks the token up once", "1 BTreeMap::get", "expected one BTreeMap::get in try_add_token, found %d" % len(gets), site=b.span):
+        return
+    bi, t = gets[0]
+    l = op_local(t["args"][1])
+    lv = provenance(b, l) if l is not None else set()
+    folds = sorted(x[1] for x in lv if x[0] == "call" and ("to_lowercase" in x[1] or "to_uppercase" in x[1] or "to_ascii_" in x[1]))
+    rep.check(not folds, R, "the lookup key is the token text as analysed", "no case folding",
+              "FragmentCandidate::try_add_token folds the case of the token text (%s) before it looks it up among the query terms: with a case-preserving analyzer a token that does not match the query is "
+              "highlighted and a token that matches is not" % folds, site=site(b, bi))
 
 
 def r1(rep, prog):
